@@ -95,6 +95,10 @@ def expr_vad(expr, pw, positional, target):
            "insts": [{"name": "u", "module": "leaf", "positional": positional,
                       "conns": [["i", [["bit", "w", 0]]], ["d", expr]]},
                      {"name": "k", "module": "keep", "conns": [["x", [["net", "w"]]], ["y", [["net", "b"]]], ["z", [["net", "n"]]]]}]}
+    if target == "undeclared" and positional:
+        # a never-declared module used with positional maps more than once: the same nameless ports serve every use
+        top["insts"].insert(1, {"name": "u2", "module": "leaf", "positional": True, "conns": [["i", [["bit", "w", 1]]], ["d", expr]]})
+        top["insts"].append({"name": "u3", "module": "leaf", "positional": True, "conns": [["i", [["net", "n"]]], ["d", expr]]})
     keep = {"name": "keep", "declared": False, "ports": []}
     mods = [leaf, top, keep] if target in ("before", "celldefine") else [top, leaf, keep]
     return {"top": "top", "modules": mods}
@@ -110,6 +114,24 @@ def chain_vad(depth=4):
             m["insts"].append({"name": "i" + names[i - 1], "module": names[i - 1], "conns": [["x", [["net", "x"]]]]})
         mods.append(m)
     return {"top": names[-1], "modules": mods}
+
+
+ARCH_LIB = {
+    # the device library: port directions of the primitives (more ports than the design happens to use), one of
+    # them with an escaped name, and a module the design does not use
+    "prim": {"name": "prim", "ports": [["x", "in", None, None], ["z", "out", 1, 0], ["q", "inout", None, None], ["extra", "in", None, None]]},
+    "\\$p.2": {"name": "\\$p.2", "ports": [["O", "out", None, None], ["I", "in", None, None], ["E", "in", None, None]]},
+    "other": {"name": "other", "ports": [["u", "in", None, None]], "celldefine": True},
+    # a library cell that lacks a port the design connects: the read may be refused as a whole, not half applied
+    "prim-short": {"name": "prim", "ports": [["x", "in", None, None], ["q", "inout", None, None]]},
+}
+
+
+def arch_vad():
+    vad = base_vad()
+    vad["modules"][0]["insts"].append({"name": "e0", "module": "\\$p.2", "conns": [["I", [["net", "a"]]], ["O", [["bit", "w", 0]]]]})
+    vad["modules"].append({"name": "\\$p.2", "declared": False, "ports": []})
+    return vad
 
 
 def parse_text(text):
@@ -134,6 +156,14 @@ def worker(case):
         text = vw.render(vad, order=list(order), style=style, comments=comments, alt=alt)
         first = [m for m in vad["modules"] if m.get("declared", True)][order[0]]["name"]
         tag = "%s:%s:%s" % (kind, style, "top-first" if first == "top" else "top-later")
+    elif kind == "arch":
+        # the design read together with a device library (sdn.parse(file, architecture=library file))
+        _, present, liborder, libstyle, order, _ = case
+        vad = arch_vad()
+        text = vw.render(vad, order=list(order))
+        libmods = [ARCH_LIB[k] for k in present]
+        libtext = vw.render({"modules": libmods}, order=[i for i in liborder if i < len(libmods)], style=libstyle, comments=True)
+        tag = "architecture:%s:%s" % ("+".join(k.strip("\\") for k in present), libstyle)
     elif kind == "chain":
         _, order, _ = case
         vad = chain_vad(len(order))
@@ -151,8 +181,27 @@ def worker(case):
     key = core.digest(text)
     exp = vw.expected(vad, style, alt)
     try:
-        n = parse_text(text)
+        if kind == "arch":
+            key = core.digest((text, libtext))
+            for key_ in present:
+                name = ARCH_LIB[key_]["name"]
+                if name in exp["primitives"]:
+                    dirs = {p[0]: p[1] for p in ARCH_LIB[key_]["ports"]}
+                    exp["primitives"][name] = [(pn, dirs.get(pn, "undef"), wd) for pn, _, wd in exp["primitives"][name]]
+            s = core.sdn()
+            d = core.scratch_dir()
+            pv, pl = os.path.join(d, "in_%d.v" % os.getpid()), os.path.join(d, "lib_%d.v" % os.getpid())
+            with open(pv, "w") as f:
+                f.write(text)
+            with open(pl, "w") as f:
+                f.write(libtext)
+            with core.quiet():
+                n = s.parse(pv, architecture=pl)
+        else:
+            n = parse_text(text)
     except Exception as ex:
+        if kind == "arch" and "prim-short" in present:
+            return {"key": key, "nontrivial": True, "outcome": "refused", "problems": probs, "transitions": 1}
         probs.append(("reader-rejected-valid-source:%s:%s" % (type(ex).__name__, tag), repr(ex)[:300]))
         return {"key": key, "nontrivial": True, "outcome": "raised", "problems": probs, "transitions": 1}
     got = vcanon.extract(n)
@@ -181,12 +230,22 @@ def cases(tier):
     for depth in (3, 4) if tier == "quick" else (3, 4, 5):
         for order in itertools.permutations(range(depth)):
             out.append(("chain", list(order), "asc"))
+    # with a device library: every subset of the library's modules, in every order, both port styles
+    names = list(ARCH_LIB)
+    for r in range(len(names) + 1):
+        for present in itertools.combinations(names, r):
+            if "prim" in present and "prim-short" in present:
+                continue
+            for liborder in itertools.permutations(range(len(present))):
+                for libstyle in ("header", "ansi"):
+                    for order in ([0, 1, 2], [2, 1, 0]):
+                        out.append(("arch", list(present), list(liborder), libstyle, order, "asc"))
     for pw in (1, 2, 3):
         for expr, wd in expressions(pw):
             for positional in (False, True):
                 for target in ("before", "after", "celldefine", "undeclared"):
-                    if target == "undeclared" and (positional or wd == 0):
-                        continue  # a never-declared module has no port order / an empty map gives no width
+                    if target == "undeclared" and wd == 0:
+                        continue  # an empty map on a never-declared module gives no width
                     if positional and wd == 0:
                         continue  # an empty positional connection is not in the documented subset
                     out.append(("expr", expr, pw, positional, target, "asc"))
